@@ -45,6 +45,9 @@ def run(pid, tier, plan, oracle_name, monitors_name=None, assumptions=(), extra_
     if conf["n_disagreements"]:
         rep.internal.append(dict(error="kernel model disagrees with the real primitives",
                                  detail=conf["disagreements"][:3]))
+    # cheap entries first (bounds 0 and 1), the bound-2 sweeps last: the budget, if it bites,
+    # bites the most expensive explorations
+    plan = sorted(plan, key=lambda e: e[1] >= 2)
     sd = framework.seed()
     if plan and sd:
         k = sd % len(plan)
@@ -52,7 +55,11 @@ def run(pid, tier, plan, oracle_name, monitors_name=None, assumptions=(), extra_
     pool = explore.Pool(oracle_name, monitors_name)
     total = explore.Summary()
     per_prog = []
-    budget = float(os.environ.get("VF_BUDGET_S", "0")) or None
+    # wall-clock budget: programs not started when it is used up are listed as skipped in the
+    # evidence (never counted as explored); thorough defaults to 40 min per check,
+    # VF_BUDGET_S=0 lifts it
+    env_b = os.environ.get("VF_BUDGET_S")
+    budget = (float(env_b) or None) if env_b is not None else (2400.0 if tier == "thorough" else None)
     t0 = time.time()
     try:
         # programs explored at bound 0 (default schedule only) are dispatched in bulk
@@ -122,6 +129,10 @@ def run(pid, tier, plan, oracle_name, monitors_name=None, assumptions=(), extra_
         cov.update(extra_cov)
     rep.coverage = cov
     code = rep.finish()
+    skipped = [p["program"] for p in per_prog if p.get("skipped")]
+    if skipped:
+        print(f"[{pid}] budget of {budget:.0f} s used up: {len(skipped)} programs not explored "
+              f"(listed as skipped in the evidence): {skipped[:6]}")
     print(f"[{pid}] tier={tier} programs={len(plan)} executions={total.executions} "
           f"states={len(total.states)} transitions={len(total.transitions)} "
           f"violations={len(total.violations)} internal={len(total.internal)} "
